@@ -320,3 +320,35 @@ func (m *poolModel) key() string {
 	sort.Strings(rs)
 	return fmt.Sprintf("slots%v ext%v must%v committed%v resub%v", parts, m.ext, em, keys(m.committed), rs)
 }
+
+// clone is a deep copy (the model is plain data).
+func (m *poolModel) clone() *poolModel {
+	c := newPoolModel(m.nAcct, m.pendingLimit, m.waitingLimit)
+	copy(c.nonce, m.nonce)
+	for a := range m.slots {
+		for n, s := range m.slots[a] {
+			ns := &slot{cands: map[txid]bool{}, must: s.must}
+			for k, v := range s.cands {
+				ns.cands[k] = v
+			}
+			c.slots[a][n] = ns
+		}
+	}
+	c.ext = append([]txid(nil), m.ext...)
+	for k, v := range m.extMust {
+		c.extMust[k] = v
+	}
+	for k, v := range m.committed {
+		c.committed[k] = v
+	}
+	for k, v := range m.submitted {
+		c.submitted[k] = v
+	}
+	for k, v := range m.resub {
+		c.resub[k] = v
+	}
+	for k, v := range m.ethOf {
+		c.ethOf[k] = v
+	}
+	return c
+}
